@@ -20,7 +20,46 @@ func init() {
 	})
 }
 
+// runC20ComparableResolvers: C20.6 (defect D55).  TypeResolver values are documented to be
+// comparable (usable as map keys) and codec factories memoise per resolver.  The resolver a
+// service gets depends on how its schema was loaded (GlobalTypes for the generated one, a
+// library-made fallback for a dynamically loaded one), so every concrete type the library itself
+// converts to TypeResolver must be comparable - a slice type there makes every request to a
+// dynamically loaded service panic ('hash of unhashable type') while the generated one works.
+func runC20ComparableResolvers(c *Ctx) {
+	p := c.P
+	c.Rule("C20.6", "every value the library converts to TypeResolver has a comparable (hashable) dynamic type", 2)
+	tr := p.MustNamed("TypeResolver")
+	n := 0
+	for _, fn := range p.Funcs {
+		if !p.inScope(fn) {
+			continue
+		}
+		ord := 0
+		ForEachInstr(fn, func(in ssa.Instruction) {
+			mi, ok := in.(*ssa.MakeInterface)
+			if !ok || !types.Identical(mi.Type(), tr) {
+				return
+			}
+			n++
+			ord++
+			construct := "resolver-comparable:" + aliasTypeString(types.TypeString(mi.X.Type(), shortQual))
+			pos := mi.Pos()
+			if !pos.IsValid() {
+				pos = fn.Pos()
+			}
+			c.Check(types.Comparable(mi.X.Type()), "C20.6", FuncName(fn), construct, pos,
+				"the dynamic type is comparable (pointer / struct of comparables)",
+				"a value of type "+mi.X.Type().String()+" is used as a TypeResolver: the type is not comparable, so a codec factory that keys a map by resolver (as the TypeResolver contract allows) panics for every service that gets this resolver - behaviour then depends on how the schema was loaded")
+		})
+	}
+	if n < 2 {
+		c.Bad("C20.6", "package", "resolver-comparable", token.NoPos, "fewer than two conversions to TypeResolver found ("+itoa(n)+"): shape changed")
+	}
+}
+
 func runC20(c *Ctx) {
+	defer runC20ComparableResolvers(c)
 	p := c.P
 
 	// ---------------------------------------------------------------- C20.1
